@@ -264,6 +264,16 @@ class Life:
                 t.call(OWNER, "deposit", esdts=[(LP_TOK, 0, amt + delta)], probe=True)
         if r.chance(1, 8):
             t.call(STRANGER, "deposit", esdts=[(LP_TOK, 0, amt)], probe=True)
+        # the exact amount in another token, as EGLD, or split over two transfers
+        k = r.below(4)
+        if k == 0:
+            t.call(OWNER, "deposit", esdts=[(OTHER_TOK, 0, amt)], probe=True)
+        elif k == 1:
+            t.call(OWNER, "deposit", esdts=[(PAY_TOK, 0, amt)], probe=True)
+        elif k == 2:
+            t.call(OWNER, "deposit", egld=amt, probe=True)
+        elif amt >= 2:
+            t.call(OWNER, "deposit", esdts=[(LP_TOK, 0, amt - 1), (LP_TOK, 0, 1)], probe=True)
         t.call(OWNER, "deposit", esdts=[(LP_TOK, 0, amt)])
         t.dump()
 
